@@ -122,7 +122,10 @@ def decode_array_delimiter(_, __, type_, data, pos, endianness, len_hints):
     return size
 
 
-def decode_array(parent, name, _, data, pos, endianness, len_hints):
+def decode_array(parent, name, type_, data, pos, endianness, len_hints):
+    """ an array of a fixed extent is not built for an input that cannot hold it """
+    if type_._SIZE > len(data) - pos:
+        raise ProphyError("too few bytes to decode array")
     return getattr(parent, name)._decode_impl(data, pos, endianness, len_hints.get(name))
 
 
